@@ -153,7 +153,18 @@ func buildHost(tape *sim.Tape, bad bool) *c11Host {
 				h.Slots = append(h.Slots, s)
 				continue
 			}
-			enc, mt := encodeDataURI(tape, "image/svg+xml", pl)
+			enc, mt, pl, prm := encodeDataURI(tape, "image/svg+xml", pl)
+			switch tape.Draw(8) {
+			case 0:
+				// a line continuation of the CSS string right behind the opening quote, ...
+				enc = "\\\n" + enc
+			case 1:
+				// ... somewhere in the middle, ...
+				enc = enc[:len(enc)/2] + "\\\r\n" + enc[len(enc)/2:]
+			case 2:
+				// ... or right before the closing quote: not part of the URL
+				enc = enc + "\\\n"
+			}
 			if i == 0 && tape.Draw(4) == 0 {
 				// a long stylesheet in front: what the minifier counts or caches while it reads
 				// hundreds of ordinary declarations must not change what happens to a later URL
@@ -177,7 +188,7 @@ func buildHost(tape *sim.Tape, bad bool) *c11Host {
 				}
 			}
 			doc.WriteString(fmt.Sprintf(".c%d { background : %s%s", i, layers, pre))
-			s := c11Slot{MT: mt, Payload: pl, Ctx: "css url(data:)", Via: "datauri", Attr: true}
+			s := c11Slot{MT: mt, Payload: pl, Ctx: "css url(data:)", Via: "datauri", Attr: true, Params: prm}
 			s.Start = doc.Len()
 			doc.WriteString(enc)
 			s.End = doc.Len()
@@ -282,9 +293,9 @@ func buildHost(tape *sim.Tape, bad bool) *c11Host {
 		case 10, 11:
 			key := []string{"image/svg+xml", "text/css"}[tape.Draw(2)]
 			pl := pick(key)
-			enc, mt := encodeDataURI(tape, key, pl)
+			enc, mt, pl, prm := encodeDataURI(tape, key, pl)
 			doc.WriteString([]string{"<img src=\"", "<a href=\""}[k-10])
-			s := c11Slot{MT: mt, Payload: pl, Ctx: "html data: URI", Via: "datauri", Attr: true}
+			s := c11Slot{MT: mt, Payload: pl, Ctx: "html data: URI", Via: "datauri", Attr: true, Params: prm}
 			s.Start = doc.Len()
 			doc.WriteString(enc)
 			s.End = doc.Len()
@@ -312,14 +323,36 @@ func buildHost(tape *sim.Tape, bad bool) *c11Host {
 	return h
 }
 
-func encodeDataURI(tape *sim.Tape, mt string, payload []byte) (string, string) {
-	switch tape.Draw(3) {
+// c11Literal holds payloads that can be written into a data: URI as they are (no quote, no
+// percent sign, no line break): what reaches the minifier must be these bytes, runs of blanks
+// and tabs included.
+var c11Literal = map[string]string{
+	"image/svg+xml": "<svg xmlns='http://www.w3.org/2000/svg'  width='10'>  <path d='M 10 10  L 20\t20'/>  </svg>",
+	"text/css":      "a  {  color :  #ff0000 ;\tmargin :  0px  }",
+}
+
+// encodeDataURI writes payload as a data: URI for media type mt in one of the spellings of
+// RFC 2397, and returns the URI, the media type and the bytes its minifier must receive, and
+// the parameters it must receive with them.
+func encodeDataURI(tape *sim.Tape, mt string, payload []byte) (string, string, []byte, map[string]string) {
+	switch tape.Draw(6) {
 	case 0:
-		return "data:" + mt + ";base64," + base64.StdEncoding.EncodeToString(payload), mt
+		return "data:" + mt + ";base64," + base64.StdEncoding.EncodeToString(payload), mt, payload, map[string]string{}
 	case 1:
-		return "data:" + mt + "," + url.PathEscape(string(payload)), mt
+		return "data:" + mt + "," + url.PathEscape(string(payload)), mt, payload, map[string]string{}
+	case 2:
+		return "data:" + mt + ";charset=utf-8;base64," + base64.StdEncoding.EncodeToString(payload), mt, payload, map[string]string{"charset": "utf-8"}
+	case 3:
+		// nothing escaped at all
+		if lit, ok := c11Literal[mt]; ok {
+			payload = []byte(lit)
+		}
+		return "data:" + mt + "," + string(payload), mt, payload, map[string]string{}
+	case 4:
+		// the default charset, written out, with another parameter behind it
+		return "data:" + mt + ";charset=us-ascii;a=b;base64," + base64.StdEncoding.EncodeToString(payload), mt, payload, map[string]string{"charset": "us-ascii", "a": "b"}
 	default:
-		return "data:" + mt + ";charset=utf-8;base64," + base64.StdEncoding.EncodeToString(payload), mt
+		return "data:" + mt + ";a=b;charset=US-ASCII," + url.PathEscape(string(payload)), mt, payload, map[string]string{"charset": "US-ASCII", "a": "b"}
 	}
 }
 
@@ -509,7 +542,7 @@ func c11Case(env *Env, tape *sim.Tape) *CaseOut {
 			if !bytes.Equal(bytes.TrimSpace(c.Payload), bytes.TrimSpace(s.Payload)) {
 				return fail("payload-differs", site, fmt.Sprintf("minifier for %s received %q, the embedded bytes are %q", s.MT, c.Payload, s.Payload))
 			}
-			if s.Via != "datauri" && !paramsEqual(c.Params, wantParams) {
+			if (s.Via != "datauri" || s.Params != nil) && !paramsEqual(c.Params, wantParams) {
 				return fail("params-differ", site, fmt.Sprintf("minifier for %s received params %v, expected %v", s.MT, c.Params, wantParams))
 			}
 			if mode == mFail && counts[s.MT] >= failOn && !stubFailed {
